@@ -202,18 +202,23 @@ func appendEvents(path string, events []Event) error {
 		return err
 	}
 	defer file.Close()
+	// All events of one command go out in a single write(2): a process killed between two
+	// writes would otherwise leave a command half applied (claimed but still todo, some
+	// tombstones of a prune, ...).
+	var batch []byte
 	for _, event := range events {
 		data, err := json.Marshal(event)
 		if err != nil {
 			return err
 		}
-		line := append(data, '\n')
-		verifPoint("append.write")
-		if err := writeAll(file, line); err != nil {
-			return err
-		}
+		batch = append(batch, data...)
+		batch = append(batch, '\n')
 	}
-	return nil
+	if len(batch) == 0 {
+		return nil
+	}
+	verifPoint("append.write")
+	return writeAll(file, batch)
 }
 
 func writeEventsFile(path string, events []Event) error {
